@@ -497,6 +497,8 @@ def rule_partial_reads(ctx):
 
 
 def run(ctx):
+    from . import edges
+    edges.rule_snapshot_index(ctx, 'R06.13')         # exactly the completed snapshots can be loaded
     from . import c08
     c08.rule_final_snapshot_order(ctx)     # R08.10: the last snapshot of a run restarts with the full step size
     rule_partial_reads(ctx)
